@@ -76,4 +76,56 @@ for i in range(1500 if TIER == "quick" else 20000):
         ok = False
         w["error"] = repr(ex)[:300]
     cn.case((i, dk), ok, witness=w)
-emit([cx, cn])
+# ---------------------------------------------------------------- stager URI classification against the checksum8 definition
+import re as _re
+
+
+def ref_checksum8(text):
+    """checksum8 as the property uses it: 0 for strings shorter than 4 characters, else the sum of the code points of the
+    string with its slashes removed, modulo 256"""
+    if len(text) < 4:
+        return 0
+    return sum(ord(ch) for ch in text if ch != "/") % 256
+
+
+cu = Component("stager-classification-vs-checksum8",
+               "URI strings over [A-Za-z0-9/?#=&.%_-] and a few non-ASCII characters, lengths 0..12, half of them steered so that their "
+               "checksum8 is 92 or 93 (last character solved for), with and without query / fragment parts: is_stager_x86(u) == "
+               "(checksum8(u) == 92), is_stager_x64(u) == (checksum8(u) == 93 and u is a slash + 4 alphanumerics), checksum8 == "
+               "reference; 100 generated stager URIs of each kind satisfy their classifier; 4000 strings quick / 60000 thorough")
+ALPH = "ABCDEFGHIJKLMNOPQRSTUVWXYZabcdefghijklmnopqrstuvwxyz0123456789"
+for i in range(4000 if TIER == "quick" else 60000):
+    n = rng.randrange(0, 13)
+    u = "".join(rng.choice(ALPH + "//??##=&.%_-" + ("\u00e9\u0101" if rng.random() < 0.05 else "")) for _ in range(n))
+    if rng.random() < 0.5:
+        u = "/" + u[1:]
+    if rng.random() < 0.5 and len(u) >= 4:
+        # steer the checksum: replace one alphanumeric position so that the total becomes 92 or 93 (when an alphanumeric fits)
+        target = rng.choice([92, 93])
+        pos = [k for k, ch in enumerate(u) if ch in ALPH]
+        if pos:
+            k = rng.choice(pos)
+            rest = ref_checksum8(u[:k] + "/" + u[k + 1:]) if len(u) >= 4 else 0
+            for ch in ALPH:
+                if (rest + ord(ch)) % 256 == target:
+                    u = u[:k] + ch + u[k + 1:]
+                    break
+    want86 = ref_checksum8(u) == 92
+    want64 = ref_checksum8(u) == 93 and _re.fullmatch("/[A-Za-z0-9]{4}", u) is not None
+    try:
+        got = (utils.checksum8(u), utils.is_stager_x86(u), utils.is_stager_x64(u))
+        ok = got == (ref_checksum8(u), want86, want64)
+        w = {"uri": u, "checksum8": ref_checksum8(u), "expected": [want86, want64], "got": list(got)}
+    except Exception as ex:     # noqa
+        ok, w = False, {"uri": u, "error": repr(ex)[:200]}
+    cu.case((i, u), ok, sample=u, witness=w)
+for i in range(200):
+    x64 = bool(i % 2)
+    try:
+        u = utils.random_stager_uri(x64=x64) if x64 else utils.random_stager_uri(length=rng.choice([3, 4, 5, 8]))
+        ok = (utils.is_stager_x64(u) if x64 else utils.is_stager_x86(u)) and ref_checksum8(u) == (93 if x64 else 92) and u.startswith("/")
+        w = {"generated": u, "x64": x64}
+    except Exception as ex:     # noqa
+        ok, w = False, {"x64": x64, "error": repr(ex)[:200]}
+    cu.case(("gen", i), ok, witness=w)
+emit([cx, cn, cu])
